@@ -8,6 +8,7 @@ import (
 	"errors"
 	"fmt"
 	"math/rand/v2"
+	"os"
 	"sort"
 	"strconv"
 	"strings"
@@ -31,7 +32,11 @@ type vC01Client struct {
 	dead  bool
 	armed int // die right after this many more calls (0 = not armed)
 	calls int
+	opCalls int          // calls made by the current operation
+	failAt  map[int]bool // the calls of the current operation (1-based) that return an error without effect
 }
+
+var errVC01Injected = errors.New("verif: injected storage error")
 
 func (c *vC01Client) Get(ctx context.Context, key string) ([]byte, error) {
 	op := storage.GetOperation(key)
@@ -55,7 +60,12 @@ func (c *vC01Client) Batch(_ context.Context, ops ...*storage.Operation) error {
 		return errors.New("verif: incarnation is dead")
 	}
 	c.calls++
+	c.opCalls++
+	fail := c.failAt[c.opCalls]
 	for _, op := range ops {
+		if fail {
+			break // a failing call has no effect on the stored data
+		}
 		switch op.Type {
 		case storage.Get:
 			if v, ok := c.st[op.Key]; ok {
@@ -75,6 +85,9 @@ func (c *vC01Client) Batch(_ context.Context, ops ...*storage.Operation) error {
 			c.dead = true
 			panic(vC01Death{})
 		}
+	}
+	if fail {
+		return errVC01Injected
 	}
 	return nil
 }
@@ -119,6 +132,18 @@ type vC01Op struct {
 	pos  int    // done: position in the outstanding list
 	oc   string // done: final perm shut
 	die  int    // die right after the die-th storage call of this op (0 = no death)
+	errs []int  // the storage calls of this op (1-based) that return an error
+}
+
+func vC01Errs(errs []int) string {
+	if len(errs) == 0 {
+		return "-"
+	}
+	p := make([]string, len(errs))
+	for i, e := range errs {
+		p[i] = strconv.Itoa(e)
+	}
+	return strings.Join(p, ",")
 }
 
 type vC01Out struct {
@@ -141,6 +166,7 @@ type vC01Run struct {
 	stats    map[string]int
 	lastDiedInStart bool
 	corrupted bool
+	poisoned  bool // Batch(get ri, get wi) of a start-up failed: both indexes restart from 0 over the stored data
 	shutDoneWhileOthersInFlight bool // this incarnation: a hand-off completed with a shutdown error while another was in flight
 }
 
@@ -215,11 +241,23 @@ func (r *vC01Run) obs(res string) {
 		size = strconv.FormatInt(r.pq.Size(), 10)
 	}
 	r.out.Linef("obs r=%s size=%s %s", res, size, r.dump())
+	if os.Getenv("VERIF_REPLAY_CASE") != "" {
+		r.out.Flush() // a replayed case may hang: keep what was seen
+	}
 }
 
 // guarded runs f on the live incarnation; reports whether the incarnation died inside f.
-func (r *vC01Run) guarded(die int, f func()) (died bool) {
+func (r *vC01Run) guarded(op vC01Op, f func()) (died bool) {
+	die := op.die
 	r.cl.armed = die
+	r.cl.opCalls = 0
+	r.cl.failAt = map[int]bool{}
+	for _, e := range op.errs {
+		r.cl.failAt[e] = true
+	}
+	if len(op.errs) > 0 {
+		r.stats["op_with_injected_errors_"+op.kind]++
+	}
 	defer func() {
 		if p := recover(); p != nil {
 			if _, ok := p.(vC01Death); ok {
@@ -232,6 +270,12 @@ func (r *vC01Run) guarded(die int, f func()) (died bool) {
 	}()
 	f()
 	r.cl.armed = 0
+	for e := range r.cl.failAt {
+		if e <= r.cl.opCalls {
+			r.stats["storage_error_returned_in_"+op.kind]++
+		}
+	}
+	r.cl.failAt = nil
 	return false
 }
 
@@ -293,7 +337,7 @@ func (r *vC01Run) do(op vC01Op) {
 		if b := r.st["di"]; len(b) >= 4 {
 			r.stats["dispatched_items_at_start"] += int(binary.LittleEndian.Uint32(b))
 		}
-		r.out.Linef("op start die=%d", op.die)
+		r.out.Linef("op start die=%d errs=%s", op.die, vC01Errs(op.errs))
 		var sizer request.Sizer[uint64] = request.RequestsSizer[uint64]{}
 		if !r.reqSized {
 			sizer = vC01ItemsSizer{}
@@ -310,7 +354,7 @@ func (r *vC01Run) do(op vC01Op) {
 		}).(*persistentQueue[uint64])
 		host := &vC01Host{ext: map[component.ID]component.Component{{}: &vC01Ext{cl: r.cl}}}
 		var err error
-		if r.guarded(op.die, func() { err = r.pq.Start(ctx, host) }) {
+		if r.guarded(op, func() { err = r.pq.Start(ctx, host) }) {
 			r.deaths++
 			r.deathsInStart++
 			r.kill()
@@ -321,6 +365,11 @@ func (r *vC01Run) do(op vC01Op) {
 			r.obs("err")
 			return
 		}
+		for _, e := range op.errs {
+			if e == 1 {
+				r.poisoned = true
+			}
+		}
 		r.obs("ok")
 	case "exit":
 		r.out.Linef("op exit")
@@ -329,9 +378,9 @@ func (r *vC01Run) do(op vC01Op) {
 	case "offer":
 		id := r.nextID
 		r.nextID++
-		r.out.Linef("op offer id=%d sz=%d die=%d", id, op.sz, op.die)
+		r.out.Linef("op offer id=%d sz=%d die=%d errs=%s", id, op.sz, op.die, vC01Errs(op.errs))
 		var err error
-		if r.guarded(op.die, func() { err = r.pq.Offer(ctx, id*16+uint64(op.sz)) }) {
+		if r.guarded(op, func() { err = r.pq.Offer(ctx, id*16+uint64(op.sz)) }) {
 			r.deaths++
 			r.kill()
 			r.obs("died")
@@ -346,7 +395,7 @@ func (r *vC01Run) do(op vC01Op) {
 			r.obs("err")
 		}
 	case "read":
-		r.out.Linef("op read die=%d", op.die)
+		r.out.Linef("op read die=%d errs=%s", op.die, vC01Errs(op.errs))
 		if !r.pq.stopped && r.pq.readIndex == r.pq.writeIndex {
 			r.obs("empty") // Read would block; not called
 			return
@@ -354,7 +403,7 @@ func (r *vC01Run) do(op vC01Op) {
 		var v uint64
 		var done Done
 		var ok bool
-		if r.guarded(op.die, func() { _, v, done, ok = r.pq.Read(ctx) }) {
+		if r.guarded(op, func() { _, v, done, ok = r.pq.Read(ctx) }) {
 			r.deaths++
 			r.kill()
 			r.obs("died")
@@ -370,7 +419,7 @@ func (r *vC01Run) do(op vC01Op) {
 	case "done":
 		o := r.outst[op.pos]
 		r.outst = append(r.outst[:op.pos:op.pos], r.outst[op.pos+1:]...)
-		r.out.Linef("op done i=%d oc=%s die=%d", o.idx, op.oc, op.die)
+		r.out.Linef("op done i=%d oc=%s die=%d errs=%s", o.idx, op.oc, op.die, vC01Errs(op.errs))
 		if op.oc == "shut" && len(r.outst) > 0 {
 			r.shutDoneWhileOthersInFlight = true
 		} else if op.oc != "shut" && r.shutDoneWhileOthersInFlight {
@@ -386,7 +435,7 @@ func (r *vC01Run) do(op vC01Op) {
 		case "shut":
 			err = experr.NewShutdownErr(errors.New("interrupted"))
 		}
-		if r.guarded(op.die, func() { o.done.OnDone(err) }) {
+		if r.guarded(op, func() { o.done.OnDone(err) }) {
 			r.deaths++
 			r.kill()
 			r.obs("died")
@@ -394,9 +443,9 @@ func (r *vC01Run) do(op vC01Op) {
 		}
 		r.obs("ok")
 	case "shutdown":
-		r.out.Linef("op shutdown die=%d", op.die)
+		r.out.Linef("op shutdown die=%d errs=%s", op.die, vC01Errs(op.errs))
 		var err error
-		if r.guarded(op.die, func() { err = r.pq.Shutdown(ctx) }) {
+		if r.guarded(op, func() { err = r.pq.Shutdown(ctx) }) {
 			r.deaths++
 			r.kill()
 			r.obs("died")
@@ -415,11 +464,16 @@ func (r *vC01Run) finish() {
 	if r.alive() {
 		r.do(vC01Op{kind: "exit"})
 	}
-	r.do(vC01Op{kind: "start"})
-	for i := 0; i < 400 && r.alive() && r.pq.readIndex != r.pq.writeIndex; i++ {
-		r.do(vC01Op{kind: "read"})
-		if len(r.outst) > 0 {
-			r.do(vC01Op{kind: "done", pos: 0, oc: "final"})
+	if r.poisoned {
+		// the stored indexes are inconsistent now (ri may exceed wi); the case ends here
+		r.out.Linef("stat cases_poisoned_by_index_read_error 1")
+	} else {
+		r.do(vC01Op{kind: "start"})
+		for i := 0; i < 400 && r.alive() && r.pq.readIndex != r.pq.writeIndex; i++ {
+			r.do(vC01Op{kind: "read"})
+			if len(r.outst) > 0 {
+				r.do(vC01Op{kind: "done", pos: 0, oc: "final"})
+			}
 		}
 	}
 	if r.deaths > 0 {
@@ -447,7 +501,53 @@ func (r *vC01Run) finish() {
 }
 
 // enabled ops in the current state, for the random generator
-func (r *vC01Run) randomOp(rnd *rand.Rand, pDie int) vC01Op {
+func (r *vC01Run) randomOp(rnd *rand.Rand, pDie int, pErr int) vC01Op {
+	op := r.randomOp0(rnd, pDie)
+	if pErr == 0 || r.corrupted || rnd.IntN(100) >= pErr {
+		return op
+	}
+	subset := func(lo, hi int) []int {
+		var e []int
+		for k := lo; k <= hi; k++ {
+			if rnd.IntN(2) == 0 {
+				e = append(e, k)
+			}
+		}
+		if len(e) == 0 {
+			e = []int{lo + rnd.IntN(hi-lo+1)}
+		}
+		return e
+	}
+	switch op.kind {
+	case "offer":
+		op.errs = subset(1, 2)
+	case "done":
+		op.errs = subset(1, 4)
+	case "shutdown":
+		op.errs = []int{1}
+	case "start":
+		ndi := 0
+		if b := r.st["di"]; len(b) >= 4 {
+			ndi = int(binary.LittleEndian.Uint32(b))
+		}
+		op.errs = subset(2, 4+ndi+ndi/2)
+		if rnd.IntN(25) == 0 {
+			op.errs = append([]int{1}, op.errs...)
+		}
+	case "read":
+		// every failing call can make Read give up one more item; Read blocks forever once nothing is left
+		e := subset(1, 5)
+		if len(e) > 3 {
+			e = e[:3]
+		}
+		if !r.pq.stopped && r.pq.writeIndex-r.pq.readIndex > uint64(len(e)) {
+			op.errs = e
+		}
+	}
+	return op
+}
+
+func (r *vC01Run) randomOp0(rnd *rand.Rand, pDie int) vC01Op {
 	die := func(max int) int {
 		if rnd.IntN(100) < pDie {
 			return 1 + rnd.IntN(max)
@@ -530,6 +630,21 @@ func vC01Corpus() []struct {
 			{kind: "done", pos: 0, oc: "shut"}, {kind: "done", pos: 1, oc: "final"}, {kind: "done", pos: 0, oc: "shut"}, o("shutdown"), o("exit")}},
 		// 7: offers only, death right after the first / second enqueue batch, before any read ever (read index never written)
 		{5, false, []vC01Op{o("start"), {kind: "offer", sz: 2}, {kind: "offer", sz: 3, die: 1}, o("start"), {kind: "offer", sz: 1}, o("exit")}},
+		// ---- storage errors other than death (extension of the property; the losses below are recorded findings) ----
+		// 8: the dequeue batch fails: getNextItem "always iterates" and itemDispatchingFinish deletes the item
+		{4, true, []vC01Op{o("start"), {kind: "offer", sz: 1}, {kind: "offer", sz: 1}, {kind: "read", errs: []int{1}}}},
+		// 9: the dequeue batch and both fallbacks fail: the item stays stored but the next dequeue moves ri past it
+		{4, true, []vC01Op{o("start"), {kind: "offer", sz: 1}, {kind: "offer", sz: 1}, {kind: "offer", sz: 1}, {kind: "read", errs: []int{1, 2, 3}}, o("read")}},
+		// 10: Get di fails at start-up: recovery is skipped, the next dequeue overwrites di
+		{4, true, []vC01Op{o("start"), {kind: "offer", sz: 1}, {kind: "offer", sz: 1}, o("read"), o("exit"), {kind: "start", errs: []int{2}}, o("read")}},
+		// 11: the move batch of the first dispatched item fails, the second succeeds and rewrites di without the first
+		{4, true, []vC01Op{o("start"), {kind: "offer", sz: 1}, {kind: "offer", sz: 1}, o("read"), o("read"), o("exit"), {kind: "start", errs: []int{4}}}},
+		// 12: Batch(get ri, get wi) fails at start-up: both indexes restart from 0 and the next offer overwrites key 0
+		{4, true, []vC01Op{o("start"), {kind: "offer", sz: 1}, {kind: "offer", sz: 1}, o("exit"), {kind: "start", errs: []int{1}}, {kind: "offer", sz: 1}}},
+		// 13: every error combination of the completion batches (harmless: the request is finalised)
+		{6, false, []vC01Op{o("start"), {kind: "offer", sz: 1}, {kind: "offer", sz: 2}, {kind: "offer", sz: 1}, {kind: "offer", sz: 1}, o("read"), o("read"), o("read"), o("read"),
+			{kind: "done", pos: 1, oc: "final", errs: []int{1}}, {kind: "done", pos: 0, oc: "perm", errs: []int{1, 2}}, {kind: "done", pos: 0, oc: "final", errs: []int{1, 3}},
+			{kind: "offer", sz: 1, errs: []int{1}}, {kind: "shutdown", errs: []int{1}}, {kind: "done", pos: 0, oc: "final", errs: []int{1, 2, 3}}, o("exit")}},
 	}
 }
 
@@ -570,8 +685,13 @@ func TestVerifC01PQ(t *testing.T) {
 			length = 40 + rnd.IntN(60)
 		}
 		mode := "rand"
+		pErr := 0
 		if c%20 == 19 {
 			mode = "corrupt"
+		} else if c%4 == 1 {
+			// storage errors other than death: the k-th call of an op returns an error and has no effect
+			mode = "err"
+			pErr = []int{10, 30}[rnd.IntN(2)]
 		}
 		r := vC01NewRun(out, c, capacity, reqSized, mode)
 		for i := 0; i < length; i++ {
@@ -579,7 +699,10 @@ func TestVerifC01PQ(t *testing.T) {
 				r.do(vC01Op{kind: "corrupt", pos: rnd.IntN(1000)})
 				continue
 			}
-			r.do(r.randomOp(rnd, pDie))
+			if r.poisoned && !r.alive() {
+				break
+			}
+			r.do(r.randomOp(rnd, pDie, pErr))
 		}
 		r.finish()
 	}
